@@ -21,13 +21,14 @@ def parse_listing(text, bpl):
     for ln in text.split("\n"):
         if not ln.strip():
             continue
-        lineno = int(ln[0:5])
-        addrf = ln[6:11]
-        has = addrf.strip() != ""
-        bytesf = ln[12:12 + bpl * 3]
-        rest = ln[12 + bpl * 3 + 1:] if len(ln) > 12 + bpl * 3 else ""
-        bs = [int(x, 16) for x in bytesf.split()]
-        rows.append({"line": lineno, "hasAddr": has, "addr": int(addrf[:4], 16) if has else 0, "bytes": bs, "src": None, "_rest": rest})
+        m = re.match(r"^\s*(\d+)(?: (?:([0-9A-F]{4,}):| {5})(?: (.*))?)?$", ln)
+        if not m:
+            raise V.ToolError("unparsable listing row: %r" % ln)
+        lineno, addr, rest = int(m.group(1)), m.group(2), m.group(3) or ""
+        has = addr is not None
+        bytesf = rest[:bpl * 3]
+        bs = [int(x, 16) for x in bytesf.split()] if has else []
+        rows.append({"line": lineno, "hasAddr": has, "addr": int(addr, 16) if has else 0, "bytes": bs, "src": None, "_rest": rest})
     # 'src' = this is the first row of its source line (the implementation prints the source text only there)
     seen = set()
     for r in rows:
